@@ -149,17 +149,26 @@ def check(df, date, chosen, sums, swap, stats=None):
             continue
         factor = PER_Y[u] / PER_Y[u2]  # x_u2 = x_u * PER_Y[u] / PER_Y[u2]
         x_other = df[c].to_numpy() * factor
-        back = x_other * (PER_Y[u2] / PER_Y[u])
         d1 = df.drop(columns=[c]).copy()
         d1[v[u2]] = x_other
-        d2 = df.copy()
-        d2[c] = back
         tg = [t for t in nodes if t not in (c, v[u2])]
         try:
-            r1 = env.simulate(d1, date, targets=tg)
+            r1 = env.simulate(d1, date, targets=[*tg, c])
         except Exception as e:  # noqa: BLE001
             fails.append(core.Failure(f"input-unit-raises:{c}->{u2}", f"{date}: supplying {v[u2]} instead of {c} raises {type(e).__name__}: {e!s:.160}"))
             continue
+        # the column the system derives from the supplied one must be the original amount
+        # (up to floating-point rounding) ...
+        derived = r1[c].to_numpy().astype(float)
+        ok = close(derived, df[c].to_numpy(), 1e-14)
+        if not ok.all():
+            i = int(np.flatnonzero(~ok)[0])
+            fails.append(core.Failure(f"input-unit-factor:{c}->{u2}", f"{date}: {c} derived from {v[u2]} is {derived[i]!r}, expected {df[c].to_numpy()[i]!r}"))
+            continue
+        # ... and, fed back bit for bit as the original input, must give the same results, so that
+        # no threshold can amplify the 1-ulp conversion error into a spurious difference
+        d2 = df.copy()
+        d2[c] = derived
         r2 = env.simulate(d2, date, targets=tg)
         key = np.arange(len(df))
         diffs = compare.compare_frames(r2, r1, key_base=key, key_other=key, columns=tg, check_dtype=False)
@@ -202,14 +211,16 @@ def unit_shard(desc):
         out = []
         for name, f in conv.items():
             a, b = name.split("_to_")
-            exp = x * PER_Y[b] / PER_Y[a]
+            exp = x * PER_Y[a] / PER_Y[b]  # x_y = 12 x_m = (365.25/7) x_w = 365.25 x_d
             got = f(x)
             if math.isinf(exp) or math.isinf(got):
                 continue
             if not (got == exp or abs(got - exp) <= 4 * math.ulp(exp)):
                 out.append(core.Failure(f"converter:{name}", f"{name}({x!r}) = {got!r}, expected {exp!r}", {"kind": "unit", "x": x}))
             back = conv[f"{b}_to_{a}"](got)
-            if not (back == x or abs(back - x) <= 4 * max(math.ulp(x), 5e-324)):
+            if (abs(x) < 1e-290 and x != 0) or abs(x) > 1e300:
+                continue  # overflow / subnormal intermediates lose relative precision by design of IEEE 754
+            if not (back == x or abs(back - x) <= 4 * math.ulp(x)):
                 out.append(core.Failure(f"roundtrip:{name}", f"{b}_to_{a}({name}({x!r})) = {back!r}", {"kind": "unit", "x": x}))
         if x != 0:
             sh.nontrivial.add(f"A|{x!r}")
@@ -233,7 +244,7 @@ def replay(case):
         out = []
         for name in tc._time_conversion_functions:
             a, b = name.split("_to_")
-            exp = x * PER_Y[b] / PER_Y[a]
+            exp = x * PER_Y[a] / PER_Y[b]  # x_y = 12 x_m = (365.25/7) x_w = 365.25 x_d
             got = getattr(tc, name)(x)
             if not (got == exp or abs(got - exp) <= 4 * math.ulp(exp)):
                 out.append(core.Failure(f"converter:{name}", f"{name}({x!r}) = {got!r}, expected {exp!r}"))
